@@ -46,3 +46,37 @@ def run_trace_spec(ck, name, records, module='Trace_Totals', cfg='Trace_Totals.c
     for rid, clauses in rejected:
         out[rid] = set(clauses)
     return out
+
+
+class _Collect:
+    """Stands in for the check context inside a worker process: keeps the TLC result."""
+
+    def __init__(self):
+        self.res = None
+
+    def add_tlc(self, name, res):
+        if res.error:
+            raise core.Machinery('TLC run %s failed: %s' % (name, res.error))
+        self.res = res
+
+
+def _shard_worker(item):
+    name, recs, module, cfg = item
+    c = _Collect()
+    rej = run_trace_spec(c, name, recs, module=module, cfg=cfg)
+    out = c.res.stdout
+    c.res.stdout = ''
+    return name, rej, c.res, out
+
+
+def run_trace_sharded(ck, name, records, module, cfg, shards=4, keep_stdout=False):
+    """run_trace_spec over `shards` JVMs in parallel; returns the merged dict id -> set(clauses) (and the stdouts if asked)."""
+    import par
+    parts = [records[k::shards] for k in range(shards)]
+    parts = [p for p in parts if p]
+    rej, outs = {}, []
+    for nm, r, res, out in par.pmap(_shard_worker, [('%s/%d' % (name, k), p, module, cfg) for k, p in enumerate(parts)]):
+        ck.add_tlc(nm, res)
+        rej.update(r)
+        outs.append(out)
+    return (rej, outs) if keep_stdout else rej
